@@ -274,7 +274,7 @@ def check_add(bs, acc, lcls, ld, rcls, rd, lpos=0, rpos=0):
             acc.step('add', 1, nontrivial=1, ok=1)
         except Exception:  # noqa: BLE001 - reported by the value comparison above
             pass
-    if s.bin != ld or t.bin != rd or getattr(s, '_pos', 0) != (lpos if lcls in STREAMS else 0) or getattr(t, '_pos', 0) != (rpos if rcls in STREAMS else 0):
+    if s.bin != ld or t.bin != rd or getattr(s, 'pos', 0) != (lpos if lcls in STREAMS else 0) or getattr(t, 'pos', 0) != (rpos if rcls in STREAMS else 0):
         acc.violation('add', 'frame', dict(lcls=lcls, left=ld, rcls=rcls, right=rd),
                       '\n'.join(["import bitstring"] + pre + ["r = s + t", "r.append('0b1') if isinstance(r, bitstring.BitArray) else None", "r.invert() if isinstance(r, bitstring.BitArray) else None", f"assert (s.bin, t.bin) == ({ld!r}, {rd!r}), (s.bin, t.bin)"]),
                       (ld, rd), (s.bin, t.bin))
